@@ -34,6 +34,7 @@ def make_config(seed, tier="quick"):
         empty_vals=random.Random(seed ^ 0xC05E0).random() < 0.25,  # fields with an empty value, outbound and echoed from inbound
         # journal in a file, stored counter read the way another process would (own connection: committed data only)
         file_journal=random.Random(seed ^ 0xC05F1).random() < 0.3,
+        bad_vals=random.Random(seed ^ 0xC05BD).random() < 0.2,  # messages the encoder has to refuse
         seed=seed,
         eut_role=r.choice(["acceptor", "initiator"]),
         hb=r.choice([2, 5, 30, 1000]),
@@ -159,6 +160,15 @@ class OutboundSim(PeerSim):
                 m[58] = f"n\u00f6te {k} \u20ac\u4e2d\U0001f600"
             if self.cfg.get("empty_vals") and k % 3 == 0:
                 m[58] = ""
+            if self.cfg.get("bad_vals") and k % 4 == 1:
+                # a message the encoder cannot turn into bytes: the send fails - and must leave no trace
+                if k % 8 == 1:
+                    m.set(58, "lone surrogate \ud800 in a value", replace=True)
+                else:
+                    from asyncfix.errors import RepeatingTagError
+
+                    m.set(20229, RepeatingTagError)  # what decode() leaves behind for a repeated tag
+                self.fault("send_of_unencodable_message")
             return m
         if t == "D34":
             # a new message object that happens to carry a MsgSeqNum already (copied from a received or
